@@ -26,9 +26,9 @@ type ScenCfg struct {
 	CmdAsValue  bool // command names used as string option values
 	// Inject - when set, called once at item index InjectAt (or as the last item when the list is shorter)
 	// to produce a property-specific item in context.
-	Inject   func(g *ScenGen, prev *Item) *Item
-	InjectAt int
-	MinItems int
+	Inject     func(g *ScenGen, prev *Item) *Item
+	InjectAt   int
+	MinItems   int
 	NoStopTail bool
 	ClosedOnly bool // option occurrences are always closed (optional-value options get a value, multi-value options their max)
 }
